@@ -300,6 +300,10 @@ func (v Vector[T]) Equal(other Vector[T]) (isEqual bool) {
 			panic(fmt.Errorf("vector component of type %T does not comply to %T", t, new(Equatable[T])))
 		}
 
+		if len(v) != len(other) {
+			return false
+		}
+
 		for i, v := range v {
 			/* #nosec G601 -- Implicit memory aliasing in for loop acknowledged */
 			if !any(&v).(Equatable[T]).Equal(&other[i]) {
